@@ -60,9 +60,17 @@ class Driver:
     """pipes protocol lines to the Lean model driver, returns one output line per input line"""
 
     def __init__(self, exe):
-        self.bin = os.path.join(LEAN, ".lake", "build", "bin", exe)
-        self.available = os.path.exists(self.bin)
+        built = os.path.join(LEAN, ".lake", "build", "bin", exe)
+        self.available = os.path.exists(built)
+        self.bin = built
         self.lines_sent = 0
+        if self.available:
+            # private copy: a concurrent `lake build` relinks the executable in place
+            import atexit, shutil, tempfile
+            d = tempfile.mkdtemp(prefix="verif_driver_")
+            self.bin = os.path.join(d, exe)
+            shutil.copy2(built, self.bin)
+            atexit.register(shutil.rmtree, d, ignore_errors=True)
 
     def ask(self, lines):
         if not self.available:
